@@ -413,7 +413,7 @@ Section Run.
       if k_closed c then (c, SOk) else
       match fp_pull (k_ps c) d with
       | NeedMore s => (c <| k_ps := s |>, SOk)
-      | Err e => raise_in_feed c (perr_to_merr e)
+      | Err e => raise_in_feed (c <| k_ps := fp_init |>) (perr_to_merr e)   (* the parser is dead: never fed again *)
       | Item x s rest =>
           let '(c1, st, fs) := on_item (c <| k_ps := s |>) x in
           match st, fs with
